@@ -119,7 +119,15 @@ func (f *flatEnc) enc(t types.Type, v Value) {
 			return
 		}
 		if len(vs) > 16 {
-			ex.unsupported("model codec: slice longer than 16")
+			// long form (concrete lengths only): 0xfe, then the length in two bytes
+			if len(vs) > 0xffff {
+				ex.unsupported("model codec: slice longer than 65535")
+			}
+			f.out = append(f.out, byteConst(0xfe), byteConst(byte(len(vs))), byteConst(byte(len(vs)>>8)))
+			for _, e := range vs {
+				f.enc(ut.Elem(), e)
+			}
+			return
 		}
 		f.out = append(f.out, byteConst(byte(len(vs))))
 		for _, e := range vs {
@@ -277,6 +285,23 @@ func (d *flatDec) dec(t types.Type) Value {
 		n := d.byte()
 		if d.fail != "" {
 			return []Value(nil)
+		}
+		if n.IsConst() && n.val == 0xfe {
+			// long form; on symbolic input the long form is not part of the model
+			lo, hi := d.byte(), d.byte()
+			if d.fail != "" {
+				return []Value(nil)
+			}
+			if !lo.IsConst() || !hi.IsConst() {
+				d.fail = "slice length out of range"
+				return []Value(nil)
+			}
+			k := int(lo.val) | int(hi.val)<<8
+			out := make([]Value, 0, k)
+			for i := 0; i < k && d.fail == ""; i++ {
+				out = append(out, d.dec(ut.Elem()))
+			}
+			return out
 		}
 		if ex.branch(mkEq(n, byteConst(0xff)), "codec-nilslice") {
 			return []Value(nil)
